@@ -302,6 +302,8 @@ class Driver:
             pr, badr = project(res, IDM)
             rec["res"] = gjson(pr)
             bad += ["result: " + b for b in badr]
+        if out.split(":")[0] in ("raise", "ans") and before[gi][0] != 0 and before[gi][0].get("raw") != after[gi][0].get("raw"):
+            bad.append("a rejected request / query changed the key set of a container view")
         if bad:
             rec["incoherent"] = bad
             self.incoherent.append(rec)
